@@ -185,7 +185,7 @@ Definition build (c : netlist) (caps : list N) (cmin : N) (reuse strip : bool) :
                     match n_ins nd with
                     | [] => sta
                     | Some l0 :: _ => pinref sta (stemmed stems l0)
-                    | None :: _ => {| a_heap := a_heap sta; a_locs := a_locs sta; a_caps := a_caps sta; a_ref := a_ref sta; a_ok := false |}
+                    | None :: _ => sta
                     end) (combine (seq 0 slen) sn) st4 in
       let st6 := fold_left (level_alloc tmp stems caps cmin reuse) (split_levels starts ops 0) st5 in
       (* copy location and capacity from stems to fan-out lines *)
@@ -201,7 +201,7 @@ Definition build (c : netlist) (caps : list N) (cmin : N) (reuse strip : bool) :
                     | [] => lc
                     | Some l0 :: _ => (setZ (fst (fst lc)) (ppo + i) (nth l0 (fst (fst lc)) (-1)%Z),
                                        setN (snd (fst lc)) (ppo + i) (nth l0 (snd (fst lc)) 0%N), snd lc)
-                    | None :: _ => (fst lc, false)
+                    | None :: _ => lc
                     end) (combine (seq 0 slen) sn) (locs7, caps7, true) in
       if a_ok st6 && ok8 then
         Some {| so_ops := ops; so_level_starts := starts; so_locs := locs8; so_caps := caps8;
